@@ -21,6 +21,7 @@ func nd_i64() int64
 func nd_int() int
 func nd_bytes(n int) []byte
 func nd_string(n int) string
+func nd_range(lo, hi int) int
 func vassume(c bool)
 func vassert(c bool, msg string)
 func vreach(label string)
